@@ -1,8 +1,727 @@
-//! Virtual-time world (C01 C12 C13) — see DESIGN.md 3.2.
-use crate::Args;
-use vworld::serde_json::Value;
-use vworld::json;
+//! The virtual-time world (C01 C12 C13): true time, a drifting system clock, a chronyd whose reports
+//! are valid by construction, driving — in lock-step — the real poller loop, the real
+//! ShmUpdater/FSM on its own thread, the real ShmWriter on a tmpfs file and real clients.
+//!
+//! Exact integer arithmetic: time in ns (i128), clock error in units of 1e-9 ns so that
+//! 1 ppb x 1 ns is one unit.
 
-pub fn run(mode: &str, _a: &Args) -> Value {
-    json!({"inconclusive": format!("mode {} not built yet", mode)})
+use std::collections::BTreeMap;
+use std::path::{Path, PathBuf};
+use std::sync::{Arc, Mutex};
+use std::time::Duration;
+
+use clock_bound_client::{ClockBoundClient, ClockStatus};
+use clock_bound_d::channels::new_channel_web;
+use clock_bound_d::thread_manager::Context;
+use clock_bound_d::verif_chrony_poller::{run_poller_with, ChronyOps};
+use clock_bound_d::{ChannelId, Message, PhcInfo};
+use chrony_candm::reply::Tracking;
+use vworld::serde_json::Value;
+use vworld::{clock, json, Rng};
+
+use crate::rig::{workdir, Daemon, Raw, Wait};
+use crate::wire::{bits_of_f64, decode_float, float_bits, tracking_of, Report};
+use crate::{violation, Args, NS, T0_REAL_S};
+
+const UNIT: i128 = 1_000_000_000; // error units per ns
+const ROLE_POLLER: u8 = 1;
+const ROLE_WRITER: u8 = 2;
+const ROLE_CLIENT: u8 = 3;
+
+thread_local! {
+    static ROLE: std::cell::Cell<u8> = const { std::cell::Cell::new(0) };
 }
+
+#[derive(Debug, Clone, Copy)]
+pub struct ReadEv {
+    pub role: u8,
+    pub clk: i32,
+    /// True time at the read.
+    pub t: i128,
+    /// Value returned, ns.
+    pub value: i128,
+}
+
+pub struct World {
+    pub t: i128,
+    pub t_boot: i128,
+    pub err_units: i128,
+    pub rate_ppb: i64,
+    pub d_ppb: i64,
+    pub coarse_tick: i128,
+    pub log: Vec<ReadEv>,
+    /// Delay injected right before the next monotonic-like read of a client (between its two reads).
+    pub client_gap: i128,
+    pub keep_log: bool,
+}
+
+impl World {
+    pub fn advance(&mut self, dt: i128) {
+        debug_assert!(dt >= 0);
+        self.err_units += self.rate_ppb as i128 * dt;
+        self.t += dt;
+    }
+
+    pub fn realtime_ns(&self) -> i128 {
+        (self.t * UNIT + self.err_units).div_euclid(UNIT)
+    }
+
+    pub fn mono_ns(&self) -> i128 {
+        self.t - self.t_boot
+    }
+
+    fn read(&mut self, clk: i32) -> (i64, i64) {
+        let role = ROLE.with(|r| r.get());
+        let real = clk == libc::CLOCK_REALTIME || clk == libc::CLOCK_REALTIME_COARSE;
+        if !real && role == ROLE_CLIENT && self.client_gap > 0 {
+            let g = self.client_gap;
+            self.client_gap = 0;
+            self.advance(g);
+        }
+        let v = if real {
+            self.realtime_ns()
+        } else {
+            let m = self.mono_ns();
+            if clk == libc::CLOCK_MONOTONIC_COARSE && self.coarse_tick > 0 {
+                m - m.rem_euclid(self.coarse_tick)
+            } else {
+                m
+            }
+        };
+        if self.keep_log {
+            self.log.push(ReadEv { role, clk, t: self.t, value: v });
+        }
+        (v.div_euclid(NS) as i64, v.rem_euclid(NS) as i64)
+    }
+}
+
+fn install(world: &Arc<Mutex<World>>) {
+    let w = world.clone();
+    clock::install(Box::new(move |clk| w.lock().unwrap().read(clk)));
+}
+
+fn as_role<R>(role: u8, f: impl FnOnce() -> R) -> R {
+    let prev = ROLE.with(|r| r.replace(role));
+    let r = clock::with_virtual(f);
+    ROLE.with(|r| r.set(prev));
+    r
+}
+
+// ------------------------------------------------------------------------------------ chrony model
+
+#[derive(Debug, Clone)]
+pub enum Step {
+    /// chronyd answers; the report is built when it samples its state.
+    Answer { kind: AnswerKind, request_latency: i128, reply_latency: i128, tight: bool, ref_id: u32, phc_share: u8 },
+    Silence,
+}
+
+#[derive(Debug, Clone, Copy, PartialEq)]
+pub enum AnswerKind {
+    Sync,
+    Unsync,
+    Stale,
+    BadLeap,
+    Future,
+}
+
+/// Encode `v_units` (seconds x 1e18, >= 0) as a chrony float, rounding up or down; exponent kept so
+/// that the value is a multiple of 2^-40 s.
+fn encode_float(v_units: i128, round_up: bool) -> u32 {
+    if v_units <= 0 {
+        return 0;
+    }
+    // value = coef * 2^e2 seconds, coef < 2^24, e2 >= -40
+    let mut e2: i32 = -40;
+    loop {
+        // coef = v / 2^e2 = v_units * 2^-e2 / 1e18
+        let num = v_units << ((-e2) as u32);
+        let den = UNIT * UNIT;
+        let coef = if round_up { (num + den - 1) / den } else { num / den };
+        if coef < (1 << 24) {
+            return float_bits(coef as i64, e2 + 25);
+        }
+        e2 += 1;
+        if e2 > -1 {
+            return float_bits((1 << 24) - 1, 24);
+        }
+    }
+}
+
+/// Value of a chrony float in units of 2^-40 s x 1e18 (i.e. exact as an integer numerator over 2^40).
+fn float_units_2p40(bits: u32) -> i128 {
+    let (c, e2) = decode_float(bits);
+    debug_assert!(e2 >= -40 || c == 0, "float finer than 2^-40 s");
+    if c == 0 {
+        0
+    } else {
+        (c as i128 * UNIT * UNIT) << ((40 + e2) as u32)
+    }
+}
+
+struct Chrony {
+    world: Arc<Mutex<World>>,
+    step: Arc<Mutex<Option<Step>>>,
+    grace: Arc<Mutex<bool>>,
+    rng: Rng,
+    /// What chronyd did this iteration: (true time it sampled at, report) for the monitor.
+    sampled: Arc<Mutex<Option<(i128, Report, i64)>>>,
+    phc_value: i64,
+    /// The PHC is configured, readable, and is the reference of this step's report.
+    phc_active: bool,
+    entered: Arc<Mutex<Option<i128>>>,
+}
+
+impl ChronyOps for Chrony {
+    fn get_tracking(&mut self) -> Option<Tracking> {
+        *self.entered.lock().unwrap() = Some(self.world.lock().unwrap().t);
+        let step = self.step.lock().unwrap().clone();
+        match step {
+            None | Some(Step::Silence) => {
+                // Three one-second timeouts go by.
+                self.world.lock().unwrap().advance(3 * NS);
+                None
+            }
+            Some(Step::Answer { kind, request_latency, reply_latency, tight, ref_id, phc_share }) => {
+                let mut w = self.world.lock().unwrap();
+                w.advance(request_latency);
+                // chronyd samples its state now.
+                let e = w.err_units.abs(); // error in 1e-18 s
+                let rt = w.realtime_ns();
+                // Part of the error is attributed to the PHC when it is the reference.
+                let phc_units = (self.phc_value as i128) * UNIT;
+                let e_for_ntp = if phc_share > 0 && self.phc_active { (e - phc_units * phc_share as i128 / 4).max(0) } else { e };
+                let budget = if tight { e_for_ntp } else { e_for_ntp + self.rng.magnitude(58) as i128 % (5 * UNIT * UNIT / 1000) };
+                // Split the budget.
+                let a = budget * self.rng.below(101) as i128 / 100;
+                let b = (budget - a) * self.rng.below(101) as i128 / 100;
+                let c = budget - a - b;
+                let mut off = encode_float(a, false);
+                let delay = encode_float(2 * b, false);
+                let mut disp = encode_float(c, true);
+                // Make the report valid on the decoded wire values, exactly.
+                let need = e_for_ntp << 40;
+                loop {
+                    let have = float_units_2p40(off) + float_units_2p40(delay) / 2 + float_units_2p40(disp);
+                    if have >= need {
+                        break;
+                    }
+                    let (c0, e0) = decode_float(disp);
+                    disp = if c0 + 1 < (1 << 24) { float_bits(c0 + 1, e0 + 25) } else { float_bits((c0 + 1) / 2 + 1, e0 + 26) };
+                    if disp == 0 {
+                        disp = float_bits(1, -15);
+                    }
+                }
+                if self.rng.chance(1, 2) && off != 0 {
+                    // negative offset: same magnitude
+                    let (c0, e0) = decode_float(off);
+                    off = float_bits(-c0, e0 + 25);
+                }
+                let (leap, age_ns) = match kind {
+                    AnswerKind::Sync => (self.rng.below(3) as u16, self.rng.range(0, 100_000_000_000) as i128),
+                    AnswerKind::Unsync => (3, self.rng.range(0, 100_000_000_000) as i128),
+                    AnswerKind::Stale => (self.rng.below(3) as u16, 200 * NS + self.rng.range(0, 1_000_000_000_000) as i128),
+                    AnswerKind::BadLeap => (4 + self.rng.below(60000) as u16, 0),
+                    AnswerKind::Future => (0, -(1 + self.rng.range(0, 5_000_000_000) as i128)),
+                };
+                let report = Report { ref_id, leap, ref_time_ns: rt - age_ns, correction_bits: off, delay_bits: delay, dispersion_bits: disp, interval_bits: bits_of_f64(16.0) };
+                *self.sampled.lock().unwrap() = Some((w.t, report, self.phc_value));
+                w.advance(reply_latency);
+                drop(w);
+                Some(tracking_of(&report))
+            }
+        }
+    }
+
+    fn is_within_grace_period(&self) -> bool {
+        *self.grace.lock().unwrap()
+    }
+}
+
+// ------------------------------------------------------------------------------------ the run
+
+struct Sim {
+    world: Arc<Mutex<World>>,
+    dir: PathBuf,
+    path: PathBuf,
+    daemon: Option<Daemon>,
+    drift_ppb: u32,
+    step: Arc<Mutex<Option<Step>>>,
+    grace: Arc<Mutex<bool>>,
+    sampled: Arc<Mutex<Option<(i128, Report, i64)>>>,
+    entered: Arc<Mutex<Option<i128>>>,
+    phc: Option<PhcInfo>,
+    phc_value: i64,
+    /// Virtual monotonic instant of the last answer received by this daemon incarnation.
+    last_good_mono: i128,
+    client: Option<ClockBoundClient>,
+    /// Last published record (from the sink).
+    last_record: Option<Raw>,
+    have_sync: bool,
+}
+
+#[derive(Default)]
+struct Obs {
+    answers_by_status: BTreeMap<String, u64>,
+    outcomes_by_kind: BTreeMap<String, u64>,
+    adversarial_instants: BTreeMap<String, u64>,
+    min_margin_ns: Option<i128>,
+    trusted_in_sync_phase: u64,
+    answers_in_sync_phase: u64,
+    restarts: u64,
+    polls: u64,
+    order_checks: u64,
+    gap_checks: u64,
+    msg_checks: u64,
+    client_errors: BTreeMap<String, u64>,
+}
+
+fn status_num(s: ClockStatus) -> i32 {
+    match s {
+        ClockStatus::Unknown => 0,
+        ClockStatus::Synchronized => 1,
+        ClockStatus::FreeRunning => 2,
+    }
+}
+
+impl Sim {
+    fn now_t(&self) -> i128 {
+        self.world.lock().unwrap().t
+    }
+
+    fn start_daemon(&mut self) {
+        self.daemon = Some(Daemon::start(&self.path, self.drift_ppb, true));
+        // ClockErrorBoundPoller::default(): the last answer is 5 s in the past.
+        self.last_good_mono = self.world.lock().unwrap().mono_ns() - 5 * NS;
+        self.have_sync = false;
+        self.last_record = None;
+    }
+
+    /// One client call; checks containment (C01) and the read order (C12). `tag` names the instant.
+    fn query(&mut self, a: &Args, prop: &str, fresh: bool, tag: &str, gap: i128, obs: &mut Obs, violations: &mut Vec<Value>, history: &[String], sync_phase: bool) -> Option<(i32, i128)> {
+        let mut w = self.world.lock().unwrap();
+        w.client_gap = gap;
+        w.keep_log = true;
+        let log_from = w.log.len();
+        let tol_tick = w.coarse_tick;
+        let d = w.d_ppb as i128;
+        drop(w);
+        let path = self.path.clone();
+        if fresh || self.client.is_none() {
+            let c = as_role(ROLE_CLIENT, || ClockBoundClient::new_with_path(path.to_str().unwrap()));
+            match c {
+                Ok(c) => {
+                    if !fresh {
+                        self.client = Some(c);
+                    } else {
+                        // use a throw-away client
+                        let mut c = c;
+                        let r = as_role(ROLE_CLIENT, || c.now());
+                        return self.judge(a, prop, r, log_from, tag, tol_tick, d, obs, violations, history, sync_phase);
+                    }
+                }
+                Err(e) => {
+                    *obs.client_errors.entry(format!("open-{:?}", e.kind)).or_insert(0) += 1;
+                    self.world.lock().unwrap().client_gap = 0;
+                    return None;
+                }
+            }
+        }
+        let r = {
+            let c = self.client.as_mut().unwrap();
+            as_role(ROLE_CLIENT, || c.now())
+        };
+        self.judge(a, prop, r, log_from, tag, tol_tick, d, obs, violations, history, sync_phase)
+    }
+
+    #[allow(clippy::too_many_arguments)]
+    fn judge(&mut self, a: &Args, prop: &str, r: Result<clock_bound_client::ClockBoundNowResult, clock_bound_client::ClockBoundError>, log_from: usize, tag: &str, tick: i128, d: i128, obs: &mut Obs, violations: &mut Vec<Value>, history: &[String], sync_phase: bool) -> Option<(i32, i128)> {
+        let mut w = self.world.lock().unwrap();
+        w.client_gap = 0;
+        let reads: Vec<ReadEv> = w.log[log_from..].iter().filter(|e| e.role == ROLE_CLIENT).cloned().collect();
+        w.log.truncate(0);
+        drop(w);
+        *obs.adversarial_instants.entry(tag.to_string()).or_insert(0) += 1;
+        if sync_phase {
+            obs.answers_in_sync_phase += 1;
+        }
+        let r = match r {
+            Ok(r) => r,
+            Err(e) => {
+                *obs.client_errors.entry(format!("{:?}", e.kind)).or_insert(0) += 1;
+                return None;
+            }
+        };
+        // C12: the realtime clock is read first, the monotonic clock second, nothing else.
+        obs.order_checks += 1;
+        let order_ok = reads.len() == 2 && reads[0].clk == libc::CLOCK_REALTIME && reads[1].clk != libc::CLOCK_REALTIME;
+        if !order_ok && (prop == "C12") {
+            violation(violations, a, "C12", "client-read-order", format!("now() read the clocks in the order {:?} (expected CLOCK_REALTIME then the monotonic clock)", reads.iter().map(|e| e.clk).collect::<Vec<_>>()), json!({"history": history}));
+        }
+        let t_read = reads.iter().find(|e| e.clk == libc::CLOCK_REALTIME).map(|e| e.t);
+        let st = status_num(r.clock_status);
+        *obs.answers_by_status.entry(format!("{}", st)).or_insert(0) += 1;
+        let e_ns = r.earliest.tv_sec() as i128 * NS + r.earliest.tv_nsec() as i128;
+        let l_ns = r.latest.tv_sec() as i128 * NS + r.latest.tv_nsec() as i128;
+        let half = (l_ns - e_ns) / 2;
+        if st == 0 {
+            return Some((st, half));
+        }
+        if sync_phase {
+            obs.trusted_in_sync_phase += 1;
+        }
+        let t_read = match t_read {
+            Some(t) => t,
+            None => return Some((st, half)),
+        };
+        let tol = 2 + (d * tick + UNIT - 1) / UNIT;
+        let margin = (t_read - e_ns).min(l_ns - t_read);
+        obs.min_margin_ns = Some(obs.min_margin_ns.map_or(margin, |m| m.min(margin)));
+        if margin < -tol {
+            let rec = self.last_record;
+            violation(violations, a, prop, if prop == "C12" { "delay-breaks-containment" } else { "true-time-outside-interval" },
+                      format!("true time {} ns lies {} ns outside [{}, {}] returned with status {} at instant '{}' (published record {:?}; clock error {} ns)", t_read, -margin, e_ns, l_ns, st, tag, rec, self.world.lock().unwrap().err_units / UNIT),
+                      json!({"history": history, "instant": tag}));
+        }
+        Some((st, half))
+    }
+
+    /// One iteration of the real poller loop, then the message through the real writer thread.
+    #[allow(clippy::too_many_arguments)]
+    fn poll(&mut self, a: &Args, prop: &str, step: Step, rng: &mut Rng, obs: &mut Obs, violations: &mut Vec<Value>, history: &[String]) -> Result<(), String> {
+        obs.polls += 1;
+        let (mut mailbox, dbox) = new_channel_web::<ChannelId, Message>(vec![ChannelId::ClockErrorBoundPoller, ChannelId::ShmWriter]);
+        let pmbox = mailbox.get_mailbox(&ChannelId::ClockErrorBoundPoller).unwrap();
+        let smbox = mailbox.get_mailbox(&ChannelId::ShmWriter).unwrap();
+        dbox.send(&ChannelId::ClockErrorBoundPoller, Message::ThreadAbort).unwrap();
+        let ctx = Context { channel_id: ChannelId::ClockErrorBoundPoller, mbox: pmbox, dbox: dbox.clone() };
+        *self.step.lock().unwrap() = Some(step.clone());
+        *self.sampled.lock().unwrap() = None;
+        *self.entered.lock().unwrap() = None;
+        // The grace flag the real poller would compute when asked (after the failed query).
+        let mono_now = self.world.lock().unwrap().mono_ns();
+        let silence = matches!(step, Step::Silence);
+        let asked_at = if silence { mono_now + 3 * NS } else { mono_now };
+        *self.grace.lock().unwrap() = asked_at - self.last_good_mono < 5 * NS;
+        let phc_active = match (&self.phc, &step) {
+            (Some(p), Step::Answer { ref_id, .. }) => p.refid == *ref_id && p.sysfs_error_bound_path.exists(),
+            _ => false,
+        };
+        let chrony = Chrony { world: self.world.clone(), step: self.step.clone(), grace: self.grace.clone(), rng: rng.fork(7), sampled: self.sampled.clone(), phc_value: self.phc_value, phc_active, entered: self.entered.clone() };
+        {
+            let mut w = self.world.lock().unwrap();
+            w.keep_log = true;
+            w.log.truncate(0);
+        }
+        let phc = self.phc.clone();
+        as_role(ROLE_POLLER, || run_poller_with(ctx, chrony, phc, Duration::from_millis(1)));
+        let reads: Vec<ReadEv> = {
+            let mut w = self.world.lock().unwrap();
+            let v = w.log.iter().filter(|e| e.role == ROLE_POLLER).cloned().collect();
+            w.log.truncate(0);
+            v
+        };
+        let msg = match smbox.try_recv() {
+            Ok(m) => m,
+            Err(_) => {
+                if prop == "C13" || prop == "C01" {
+                    violation(violations, a, prop, "no-message", "a poller iteration delivered no message to the shm writer".to_string(), json!({"history": history}));
+                }
+                return Ok(());
+            }
+        };
+        let sampled = *self.sampled.lock().unwrap();
+        let entered = *self.entered.lock().unwrap();
+        let t_boot = self.world.lock().unwrap().t_boot;
+        // ---- C12: as_of is a monotonic reading taken before the request was issued.
+        if let Message::ClockErrorBoundData((_, _, as_of)) = &msg {
+            obs.msg_checks += 1;
+            let as_of_ns = as_of.tv_sec as i128 * NS + as_of.tv_nsec as i128;
+            let came_from_read = reads.iter().any(|e| e.clk != libc::CLOCK_REALTIME && e.value == as_of_ns && entered.map_or(false, |t| e.t <= t));
+            let before_sample = sampled.map_or(true, |(t, _, _)| as_of_ns <= t - t_boot);
+            if prop == "C12" && (!came_from_read || !before_sample) {
+                violation(violations, a, "C12", "as-of-not-before-request", format!("as_of {} ns: monotonic readings by the poller before the request was issued {:?}; chronyd sampled at monotonic {}", as_of_ns, reads.iter().filter(|e| entered.map_or(false, |t| e.t <= t)).map(|e| e.value).collect::<Vec<_>>(), sampled.map(|(t, _, _)| t - t_boot).unwrap_or(-1)), json!({"history": history}));
+            }
+        }
+        // ---- C13: the message class follows the model.
+        let grace_flag = *self.grace.lock().unwrap();
+        let expected_kind = match &step {
+            Step::Silence => if grace_flag { "ChronyNotRespondingGracePeriod" } else { "ChronyNotResponding" },
+            Step::Answer { ref_id, .. } => match &self.phc {
+                Some(p) if p.refid == *ref_id => {
+                    if std::fs::read_to_string(&p.sysfs_error_bound_path).is_ok() { "ClockErrorBoundData" } else if grace_flag { "PhcErrorBoundRetrievalFailedGracePeriod" } else { "PhcErrorBoundRetrievalFailed" }
+                }
+                _ => "ClockErrorBoundData",
+            },
+        };
+        let got_kind = match &msg {
+            Message::ClockErrorBoundData(_) => "ClockErrorBoundData",
+            Message::ChronyNotRespondingGracePeriod => "ChronyNotRespondingGracePeriod",
+            Message::ChronyNotResponding => "ChronyNotResponding",
+            Message::PhcErrorBoundRetrievalFailedGracePeriod => "PhcErrorBoundRetrievalFailedGracePeriod",
+            Message::PhcErrorBoundRetrievalFailed => "PhcErrorBoundRetrievalFailed",
+            _ => "other",
+        };
+        *obs.outcomes_by_kind.entry(format!("{}{}", got_kind, match &step { Step::Answer { kind, .. } => format!("/{:?}", kind), _ => String::new() })).or_insert(0) += 1;
+        if prop == "C13" {
+            if got_kind != expected_kind {
+                violation(violations, a, "C13", "message-class", format!("poll outcome {:?} (grace flag {}, phc configured {}): message {} expected {}", step, grace_flag, self.phc.is_some(), got_kind, expected_kind), json!({"history": history}));
+            }
+            if let (Message::ClockErrorBoundData((tr, phc_bound, _)), Step::Answer { ref_id, .. }) = (&msg, &step) {
+                let want = match &self.phc { Some(p) if p.refid == *ref_id => self.phc_value, _ => 0 };
+                if *phc_bound != want || tr.ref_id != *ref_id {
+                    violation(violations, a, "C13", "phc-bound", format!("report ref id {:#x}, configured PHC {:?} with file value {}: message carries PHC bound {} expected {}", ref_id, self.phc.as_ref().map(|p| p.refid), self.phc_value, phc_bound, want), json!({"history": history}));
+                }
+            }
+        }
+        if !silence {
+            // The real poller notes the time an answer was received.
+            self.last_good_mono = self.world.lock().unwrap().mono_ns();
+        }
+        // ---- through the writer thread
+        let before = self.last_record;
+        let is_data = matches!(msg, Message::ClockErrorBoundData(_));
+        let d = self.daemon.as_mut().ok_or("no daemon")?;
+        d.send(msg);
+        match d.wait_publication() {
+            Wait::Published => {}
+            Wait::NotPublished => {
+                violation(violations, a, prop, "no-publication", "a poll outcome did not result in a publication".to_string(), json!({"history": history}));
+                return Ok(());
+            }
+            Wait::Inconclusive => return Err("writer thread did not answer".into()),
+        }
+        let rec = *d.log.lock().unwrap().last().unwrap();
+        self.last_record = Some(rec);
+        if let (Step::Answer { kind: AnswerKind::Sync, .. }, true) = (&step, is_data) {
+            self.have_sync = true;
+        }
+        if prop == "C13" && !is_data {
+            if let Some(b) = before {
+                if (b.bound, b.as_of) != (rec.bound, rec.as_of) {
+                    violation(violations, a, "C13", "measurement-changed-without-report", format!("after {}: published (bound, as_of) went from ({}, {:?}) to ({}, {:?})", got_kind, b.bound, b.as_of, rec.bound, rec.as_of), json!({"history": history}));
+                }
+            }
+        }
+        Ok(())
+    }
+}
+
+fn random_step(rng: &mut Rng, focus: &str, phc_refid: u32) -> Step {
+    let lat = |rng: &mut Rng, heavy: bool| -> i128 {
+        match rng.below(if heavy { 4 } else { 8 }) {
+            0 => rng.range(1_000, 2_000_000_000) as i128,
+            1 => rng.range(0, 30_000_000_000) as i128 * if heavy { 1 } else { 0 },
+            _ => rng.range(0, 5_000_000) as i128,
+        }
+    };
+    let heavy = focus == "c12";
+    let p = rng.below(100);
+    let kind = if p < 62 {
+        AnswerKind::Sync
+    } else if p < 70 {
+        AnswerKind::Unsync
+    } else if p < 76 {
+        AnswerKind::Stale
+    } else if p < 80 {
+        AnswerKind::BadLeap
+    } else if p < 84 {
+        AnswerKind::Future
+    } else {
+        return Step::Silence;
+    };
+    let ref_id = match rng.below(6) {
+        0 => phc_refid,
+        1 => phc_refid ^ (1 << rng.below(32)),
+        2 => 0,
+        _ => if focus == "c13" { phc_refid } else { rng.next() as u32 },
+    };
+    Step::Answer { kind, request_latency: lat(rng, heavy), reply_latency: lat(rng, heavy), tight: rng.chance(1, 2), ref_id, phc_share: rng.below(5) as u8 }
+}
+
+fn one_history(a: &Args, mode: &str, seed: u64, obs: &mut Obs, violations: &mut Vec<Value>) -> Result<Vec<String>, String> {
+    let prop: &str = match mode { "c12" => "C12", "c13" => "C13", _ => "C01" };
+    let mut rng = Rng::new(seed);
+    let drift_ppm = *rng.pick(&[1u32, 50, 500]);
+    let d_ppb = drift_ppm as i64 * 1000;
+    let uptime_s = *rng.pick(&[3i128, 100, 999, 1_000_000]);
+    let t0 = T0_REAL_S as i128 * NS + rng.range(0, 999_999_999) as i128;
+    let err0 = match rng.below(4) {
+        0 => 0,
+        1 => rng.range(-2_000_000_000, 2_000_000_000) as i128 * UNIT,
+        _ => rng.range(-50_000_000, 50_000_000) as i128 * UNIT,
+    };
+    let tick = if mode == "c01" && arg_tick(a) > 0 && rng.chance(1, 3) { arg_tick(a) } else { 0 };
+    let world = Arc::new(Mutex::new(World { t: t0, t_boot: t0 - uptime_s * NS - rng.range(0, 999_999_999) as i128, err_units: err0, rate_ppb: 0, d_ppb, coarse_tick: tick, log: Vec::new(), client_gap: 0, keep_log: false }));
+    install(&world);
+    let dir = workdir(&format!("w{}", a.shard));
+    let path = dir.join("shm");
+    let _ = std::fs::remove_file(&path);
+    let phc_refid = 0x5048_4330;
+    let phc_path = dir.join("phc_error_bound");
+    let with_phc = rng.chance(1, 2) || mode == "c13";
+    let phc_value: i64 = *rng.pick(&[0i64, 1, 12345, 3_000_000]);
+    if with_phc {
+        std::fs::write(&phc_path, format!("{}\n", phc_value)).unwrap();
+    }
+    let mut sim = Sim {
+        world: world.clone(), dir: dir.clone(), path: path.clone(), daemon: None, drift_ppb: d_ppb as u32,
+        step: Arc::new(Mutex::new(None)), grace: Arc::new(Mutex::new(false)), sampled: Arc::new(Mutex::new(None)), entered: Arc::new(Mutex::new(None)),
+        phc: if with_phc { Some(PhcInfo { refid: phc_refid, sysfs_error_bound_path: phc_path.clone() }) } else { None },
+        phc_value: if with_phc { phc_value } else { 0 },
+        last_good_mono: 0, client: None, last_record: None, have_sync: false,
+    };
+    sim.start_daemon();
+    let mut history: Vec<String> = vec![format!("drift {} ppm, uptime at start {} s, initial clock error {} ns, coarse tick {} ns, phc {}", drift_ppm, uptime_s, err0 / UNIT, tick, if with_phc { phc_value } else { -1 })];
+    let polls = 20 + rng.below(if mode == "c01" { 180 } else { 60 });
+    let mut outage_left = 0u64;
+    let mut phc_broken = false;
+    for n in 0..polls {
+        // --- the oscillator: piecewise-constant rate within the configured maximum
+        {
+            let mut w = world.lock().unwrap();
+            let sign = if w.err_units >= 0 { 1 } else { -1 };
+            w.rate_ppb = match rng.below(5) {
+                0 | 1 => sign * d_ppb,
+                2 => -sign * d_ppb,
+                3 => 0,
+                _ => rng.range(-d_ppb, d_ppb),
+            };
+        }
+        // --- time passes until the next poll (one second, sometimes much more)
+        let gap = match rng.below(40) {
+            0 => rng.range(1, 1_200) as i128 * NS,
+            1 => rng.range(1, 10) as i128 * NS,
+            _ => NS + rng.range(0, 50_000_000) as i128,
+        };
+        // client queries spread over the gap, including adversarial instants
+        let sync_phase = sim.have_sync && outage_left == 0;
+        let nq = 1 + rng.below(3);
+        let mut spent = 0i128;
+        for q in 0..nq {
+            let (dt, tag): (i128, &str) = if q == 0 && rng.chance(1, 2) {
+                (0, "right-after-publication")
+            } else if let (Some(rec), true) = (sim.last_record, rng.chance(1, 3)) {
+                let w = world.lock().unwrap();
+                let mono = w.mono_ns();
+                drop(w);
+                let as_of = rec.as_of.0 as i128 * NS + rec.as_of.1 as i128;
+                let va = rec.void_after.0 as i128 * NS;
+                let target = match rng.below(4) { 0 => as_of + 5 * NS - 1, 1 => as_of + 5 * NS, 2 => va - 1, _ => va };
+                if target > mono && target - mono < gap - spent { (target - mono, "status-threshold") } else { (rng.range(0, (gap - spent).max(1) as i64 - 1) as i128, "random") }
+            } else {
+                (rng.range(0, ((gap - spent).max(1)) as i64 - 1) as i128, "random")
+            };
+            world.lock().unwrap().advance(dt);
+            spent += dt;
+            let cgap = if rng.chance(1, 4) || mode == "c12" { rng.range(0, if mode == "c12" { 2_000_000_000 } else { 100_000 }) as i128 } else { 0 };
+            let fresh = rng.chance(1, 5);
+            if mode == "c12" && cgap > 0 && !fresh {
+                // Same instant without the delay first: the delay may only widen the interval.
+                let h0 = sim.query(a, prop, false, "no-gap", 0, obs, violations, &history, sync_phase);
+                let h1 = sim.query(a, prop, false, "gap-between-reads", cgap, obs, violations, &history, sync_phase);
+                spent += cgap;
+                if let (Some((s0, h0)), Some((s1, h1))) = (h0, h1) {
+                    obs.gap_checks += 1;
+                    if s0 != 0 && s1 != 0 && h1 < h0 {
+                        violation(violations, a, "C12", "delay-shrinks-interval", format!("half-width {} ns with a {} ns delay between the two clock reads, {} ns without", h1, cgap, h0), json!({"history": history}));
+                    }
+                }
+            } else {
+                sim.query(a, prop, fresh, tag, cgap, obs, violations, &history, sync_phase);
+                spent += cgap;
+            }
+        }
+        if gap > spent {
+            world.lock().unwrap().advance(gap - spent);
+        }
+        // --- daemon restart now and then
+        if rng.chance(1, 60) {
+            obs.restarts += 1;
+            if let Some(mut d) = sim.daemon.take() {
+                d.stop();
+            }
+            world.lock().unwrap().advance(rng.range(0, 20_000_000_000) as i128);
+            sim.query(a, prop, rng.chance(1, 2), "daemon-down", 0, obs, violations, &history, false);
+            sim.start_daemon();
+            history.push(format!("#{} daemon restart at mono {}", n, world.lock().unwrap().mono_ns()));
+            sim.query(a, prop, rng.chance(1, 2), "first-instant-after-restart", 0, obs, violations, &history, false);
+        }
+        // --- PHC file trouble
+        if with_phc && rng.chance(1, 25) {
+            phc_broken = !phc_broken;
+            if phc_broken { let _ = std::fs::remove_file(&phc_path); } else { std::fs::write(&phc_path, format!("{}\n", phc_value)).unwrap(); }
+        }
+        // --- the poll
+        let step = if outage_left > 0 {
+            outage_left -= 1;
+            Step::Silence
+        } else {
+            let s = random_step(&mut rng, mode, phc_refid);
+            if matches!(s, Step::Silence) && rng.chance(1, 3) {
+                outage_left = rng.below(8);
+            }
+            s
+        };
+        history.push(format!("#{} t+{}ns {:?}", n, sim.now_t() - t0, step));
+        if history.len() > 40 {
+            history.drain(1..2);
+        }
+        sim.poll(a, prop, step, &mut rng, obs, violations, &history)?;
+        // right after the publication
+        sim.query(a, prop, false, "right-after-publication", 0, obs, violations, &history, sim.have_sync && outage_left == 0);
+        if !violations.is_empty() && violations.len() >= 20 {
+            break;
+        }
+    }
+    if let Some(mut d) = sim.daemon.take() {
+        d.stop();
+    }
+    clock::uninstall();
+    let _ = std::fs::remove_dir_all(&sim.dir);
+    Ok(history)
+}
+
+fn arg_tick(a: &Args) -> i128 {
+    a.map.get("tick").and_then(|s| s.parse::<i128>().ok()).unwrap_or(0)
+}
+
+pub fn run(mode: &str, a: &Args) -> Value {
+    let mut obs = Obs::default();
+    let mut violations = Vec::new();
+    let mut evaluations = 0u64;
+    let mut distinct = std::collections::HashSet::new();
+    let mut samples = Vec::new();
+    let mut inconclusive: Option<String> = None;
+    let mut k = a.shard;
+    while k < a.count {
+        let seed = Rng::new(a.seed.wrapping_mul(0x51_7C_C1B7).wrapping_add(k)).next();
+        match one_history(a, mode, seed, &mut obs, &mut violations) {
+            Ok(h) => {
+                evaluations += 1;
+                distinct.insert(seed);
+                if samples.len() < 2 {
+                    samples.push(json!({"seed": seed.to_string(), "history_tail": h.iter().rev().take(6).rev().collect::<Vec<_>>()}));
+                }
+            }
+            Err(e) => inconclusive = Some(e),
+        }
+        if violations.len() >= 20 {
+            break;
+        }
+        k += a.nshards;
+    }
+    let mut v = json!({
+        "evaluations": evaluations, "distinct": distinct.len(), "polls": obs.polls, "answers_by_status": obs.answers_by_status, "outcomes_by_kind": obs.outcomes_by_kind,
+        "adversarial_instants": obs.adversarial_instants, "min_margin_ns": obs.min_margin_ns.map(|m| m.to_string()), "restarts": obs.restarts,
+        "trusted_in_sync_phase": obs.trusted_in_sync_phase, "answers_in_sync_phase": obs.answers_in_sync_phase, "order_checks": obs.order_checks, "gap_checks": obs.gap_checks,
+        "msg_checks": obs.msg_checks, "client_errors": obs.client_errors, "violations": violations, "samples": samples,
+    });
+    if let Some(e) = inconclusive {
+        v["inconclusive"] = json!(e);
+    }
+    v
+}
+
+#[allow(dead_code)]
+fn unused(_: &Path) {}
